@@ -130,6 +130,9 @@ class C07:
                 and i[1] == src and j[1] == tgt and a[1] == src and b[1] == tgt and i[2] == a[2] and j[2] == b[2])
         if good:
             ctx.ok("R07.1", f"{self.file}:{st.lineno} match_geometries", "cell [i, j] = compute_affinity(source[i], target[j])")
+        elif not i and not j and not a and not b and "." in str(getattr(st, "inlined_from", "")).split(":")[-1]:
+            ctx.undec("R07.1", f"{self.file}:{st.lineno} match_geometries", f"where the indices and arguments of the cell `{show(st.term)[:60]}` come from cannot be read "
+                                                                           f"(the fill happens inside an object / a helper iterating something the rule does not know)")
         else:
             ctx.bad("R07.1", self.file, "match_geometries", f"cost_matrix[{show(idx[0])[:20]}, {show(idx[1])[:20] if len(idx) > 1 else ''}] = compute_affinity(...)",
                     "the matrix cell indexed (row from source, column from target) is not the affinity of that source "
@@ -238,6 +241,8 @@ class C07:
             pass
         elif len(calls) == 1 and calls[0].term[2] == (mat,) and not calls[0].term[3]:
             ctx.ok("R07.2", f"{self.file}:{calls[0].lineno} match_geometries", "_select_matches receives the filled matrix unmodified")
+        elif not calls:
+            ctx.undec("R07.2", f"{self.file}:{s.node.lineno} match_geometries", "match_geometries does not call _select_matches: the assignment is computed where the rule cannot read it")
         else:
             ctx.bad("R07.2", self.file, "match_geometries", f"_select_matches({show(calls[0].term[2][0])[:40] if calls and calls[0].term[2] else ''})",
                     "the assignment is computed on something other than the filled affinity matrix", s.node.lineno)
@@ -255,6 +260,9 @@ class C07:
             L = s.loops.get(y.loops[-1]) if y.loops else None
             if L is None or not calls or L.iter != calls[0].term or m1 != ("sub", ("elem", L.id), ("const", 0)) \
                     or m2 != ("sub", ("elem", L.id), ("const", 1)) or L.conds or len({yy.loops for yy in ys}) != 1:
+                if L is not None and (not calls or L.iter != calls[0].term) and L.iter[0] == "call" and L.iter[1][0] == "attr" and L.iter[1][1][0] in ("call", "elem", "sub", "attr"):
+                    ctx.undec("R07.5", site, f"the entries are produced by `{show(L.iter)[:60]}`, a method of an object the rule cannot read")
+                    return
                 ctx.bad("R07.5", self.file, "match_geometries", f"yield {show(t)[:70]}",
                         "the yielded indices are not, in order, the (source, target) pair produced by _select_matches for every pair", y.lineno)
                 return
@@ -288,7 +296,14 @@ class C07:
                     good = got in (cell, ("call", ("builtin", "float"), (cell,), ()))
                 else:
                     good = got[0] == "const" and got[1] == 0
-                if not good:
+                def through_table(t_):
+                    """the value comes out of a callable looked up in a module-level table / held by an object: not readable here"""
+                    return t_[0] == "call" and (t_[1][0] in ("sub", "lambda", "ite") or (t_[1][0] == "attr" and t_[1][1][0] in ("call", "elem", "sub")))
+                if not good and through_table(got):
+                    ok = False
+                    ctx.undec("R07.5", f"{self.file}:{y.lineno} match_geometries", f"the reported affinity of a {kind} entry is computed by `{show(got[1])[:60]}`, "
+                                                                                  f"a callable taken from a table / an object, which the rule cannot read")
+                elif not good:
                     ok = False
                     ctx.bad("R07.5", self.file, "match_geometries", f"affinity = {show(aff)[:80]}",
                             f"for a {kind} entry the reported affinity is "
